@@ -332,6 +332,16 @@ def run_resumption(seed, replay):
     # one run in three: the second connection reaches an impostor that has no idea of the ticket (so it performs a
     # full handshake) and presents a certificate that must not be accepted; holding a ticket proves nothing
     impostor = (None, None, "bad_selfsigned", "bad_unknownca", "bad_wrongname", "bad_expired")[c.choose(6)]
+    # what changes between the two connections (the ticket was obtained under the first configuration):
+    # 0 nothing; 1 the cipher-suite lists, so that the ticket's suite is no longer the negotiated one and the
+    # server must decline the PSK (a full handshake that both report as not resumed); 2 the version lists, so
+    # that the second handshake goes through compatible version negotiation (client starts with v1, both
+    # support v2 first) while 0-RTT keys exist from the start
+    shift = c.choose(4) if impostor is None else 0
+    from sim import bootstrap as _bootstrap
+
+    _bootstrap.load()
+    from aioquic.tls import CipherSuite as _CS
 
     def mk_kwargs():
         return {
@@ -344,6 +354,11 @@ def run_resumption(seed, replay):
     prof1 = {"fault_free": True, "max_ops": 2, "secrets_log": True, "fair_budget": 30.0, "versions": False,
              "cipher_suites": False, "server_cert": "server_ed25519", "small_limits": 0.0, "drain": 1.0, "idle_timeouts": (20.0,)}
     prof1.update(mk_kwargs())
+    if shift == 1:
+        def configure1(sim, conf, is_client):
+            if is_client:
+                conf.cipher_suites = [_CS.AES_128_GCM_SHA256]
+        prof1["configure"] = configure1
     o1 = AgreementOracle()
     sim1 = TransportSim(ch, prof1, [WireMonitor(), o1])
     reason = "ok"
@@ -360,6 +375,12 @@ def run_resumption(seed, replay):
         def configure(sim, conf, is_client):
             if is_client:
                 conf.session_ticket = ticket
+                if shift == 1:
+                    conf.cipher_suites = [_CS.AES_256_GCM_SHA384, _CS.AES_128_GCM_SHA256]
+            if shift == 2:
+                conf.supported_versions = [0x6B3343CF, 1]
+                if is_client:
+                    conf.original_version = 1
 
         def early_write(sim):
             if early:
@@ -379,7 +400,7 @@ def run_resumption(seed, replay):
             reason = sim2.run()
             o2 = None
         else:
-            o2 = AgreementOracle(expect_resumed=True)
+            o2 = AgreementOracle(expect_resumed=(shift != 1))
             sim2 = TransportSim(ch, prof2, [WireMonitor(), o2, DeliveryGoal()])
             reason = sim2.run()
         if o2 is not None and len(o2.completed) < 2 and reason not in ("step-cap", "api-exception"):
@@ -395,6 +416,7 @@ def run_resumption(seed, replay):
     s.setdefault("probes", {})["resumption_with_0rtt" if early else "resumption_without_0rtt"] = 1
     if impostor is not None:
         s["probes"]["ticket_holder_meets_impostor:" + impostor] = 1
+    s["probes"]["resumption_shift:%d" % shift] = 1
     if sim2 is not None and sim2.client.conn is not None:
         try:
             s["probes"]["early_data_accepted"] = int(bool(sim2.client.conn.tls.early_data_accepted))
